@@ -197,6 +197,85 @@ func Gen(rng *rand.Rand, o GenOpts) *Topo {
 	return t
 }
 
+// LinkSpec describes one link of a directed (hand-shaped) topology: indices into the AS list.
+type LinkSpec struct {
+	A, B int
+	Type string // "core", "child" (A parent of B), "peer"
+}
+
+// FromSpec builds a topology of one ISD per entry of isdOf (AS i lives in ISD isdOf[i]); the first
+// nCore ASes are core. Interface ids, MTUs, keys and expiry settings are drawn from rng.
+func FromSpec(rng *rand.Rand, isdOf []int, nCore int, links []LinkSpec) *Topo {
+	t := &Topo{ASes: map[addr.IA]*AS{}}
+	used := map[addr.IA]map[uint16]bool{}
+	var ias []addr.IA
+	for i, isd := range isdOf {
+		ia := IAOf(isd, i+1)
+		key := make([]byte, 16)
+		rng.Read(key)
+		lvl := 1
+		if i < nCore {
+			lvl = 0
+		}
+		t.ASes[ia] = &AS{IA: ia, Core: i < nCore, Level: lvl, MTU: mtus[rng.Intn(len(mtus))],
+			MaxExp: uint8(10 + rng.Intn(200)), Key: key, Ifs: map[uint16]*Intf{}}
+		t.Order = append(t.Order, ia)
+		used[ia] = map[uint16]bool{}
+		ias = append(ias, ia)
+	}
+	freeIf := func(ia addr.IA) uint16 {
+		for {
+			id := uint16(1 + rng.Intn(12))
+			if !used[ia][id] {
+				used[ia][id] = true
+				return id
+			}
+		}
+	}
+	for _, ls := range links {
+		a, b := ias[ls.A], ias[ls.B]
+		l := Link{A: a, AIf: freeIf(a), B: b, BIf: freeIf(b), Type: ls.Type, MTU: mtus[rng.Intn(len(mtus))]}
+		t.Links = append(t.Links, l)
+		var ta, tb topology.LinkType
+		switch ls.Type {
+		case "core":
+			ta, tb = topology.Core, topology.Core
+		case "child":
+			ta, tb = topology.Child, topology.Parent
+		case "peer":
+			ta, tb = topology.Peer, topology.Peer
+		}
+		t.ASes[a].Ifs[l.AIf] = &Intf{ID: l.AIf, Remote: b, RemoteID: l.BIf, Type: ta, MTU: l.MTU}
+		t.ASes[b].Ifs[l.BIf] = &Intf{ID: l.BIf, Remote: a, RemoteID: l.AIf, Type: tb, MTU: l.MTU}
+	}
+	return t
+}
+
+// Directed returns hand-shaped topologies that random generation rarely produces.
+//
+//	0 "ladder": AS 3 sits three levels below core 0 (0-2-3... chain 0>2>4>3) and directly below
+//	  core 1; cores 0-1 are linked: a one-segment path can be heavier than a two-segment path.
+//	1 "diamond with peering": two leaves below different parents of the same core, parents peer,
+//	  leaves peer, and a leaf peers with the other leaf's parent.
+//	2 "two ISDs, three cores": core triangle, leaves with parents in both ... (same ISD only),
+//	  cross-ISD peering between leaves.
+func Directed(rng *rand.Rand, k int) *Topo {
+	switch k % 3 {
+	case 0:
+		return FromSpec(rng, []int{1, 1, 1, 1, 1, 1}, 2, []LinkSpec{
+			{0, 1, "core"}, {0, 2, "child"}, {2, 4, "child"}, {4, 3, "child"}, {1, 3, "child"},
+			{1, 5, "child"}, {4, 5, "peer"}})
+	case 1:
+		return FromSpec(rng, []int{1, 1, 1, 1, 1}, 1, []LinkSpec{
+			{0, 1, "child"}, {0, 2, "child"}, {1, 3, "child"}, {2, 4, "child"}, {1, 4, "child"},
+			{1, 2, "peer"}, {3, 4, "peer"}, {3, 2, "peer"}})
+	default:
+		return FromSpec(rng, []int{1, 1, 2, 1, 2, 2}, 3, []LinkSpec{
+			{0, 1, "core"}, {1, 2, "core"}, {0, 2, "core"}, {0, 3, "child"}, {1, 3, "child"},
+			{2, 4, "child"}, {2, 5, "child"}, {5, 4, "child"}, {3, 4, "peer"}, {3, 5, "peer"}})
+	}
+}
+
 func (t *Topo) linked(a, b addr.IA) bool {
 	for _, l := range t.Links {
 		if (l.A == a && l.B == b) || (l.A == b && l.B == a) {
